@@ -386,4 +386,20 @@ def revealAfterAll (T : Table) (R : Ptr → Rat) (between after : Chart) : LeftS
     (res.2.1, res.2.2, st.2.2 + res.1)
   else st
 
+/-- reveal the words of a preceding fragment's right state one at a time (`reveal.length = k+1`, `seen = k`,
+`reveal_full = false`), accumulating the adjustments -/
+def revealBeforeLoop (T : Table) (R : Ptr → Rat) (br : State) : Nat → Nat → LeftSt × State × Rat → LeftSt × State × Rat
+  | 0, _, st => st
+  | fuel+1, k, (left, right, acc) =>
+    let res := revealBefore T R { br with length := k + 1 } k false left right
+    revealBeforeLoop T R br fuel (k+1) (res.2.1, res.2.2, acc + res.1)
+
+/-- … and finally, if the preceding fragment's left state is full, `reveal_full` (`seen = before.length`) -/
+def revealBeforeAll (T : Table) (R : Ptr → Rat) (before between : Chart) : LeftSt × State × Rat :=
+  let st := revealBeforeLoop T R before.right before.right.length 0 (between.left, between.right, 0)
+  if before.left.full then
+    let res := revealBefore T R before.right before.right.length true st.1 st.2.1
+    (res.2.1, res.2.2, st.2.2 + res.1)
+  else st
+
 end KV.Left
